@@ -193,6 +193,11 @@ def query_times(n_steps):
         mi.well_prepared_qubits_filter = None
         got = mi._get_interaction_matrix()
         env.check(expected_ok(classify(got)), "emu-mps: step matrix is masked while the step ends before the SLM end, full once it starts after")
+        # timestep_complete queries the matrix of step k >= 1 while current_time == target_time == t_k
+        mi.current_time = ts[k]
+        mi.target_time = ts[k]
+        got2 = mi._get_interaction_matrix()
+        env.check(expected_ok(classify(got2)), "emu-mps (as queried by timestep_complete): masked while the step ends before the SLM end, full once it starts after")
 
     return fn
 
